@@ -13,6 +13,8 @@ import (
 	. "github.com/pbenner/autodiff"
 	"github.com/pbenner/autodiff/statistics"
 	"github.com/pbenner/autodiff/statistics/generic"
+	"github.com/pbenner/autodiff/statistics/matrixDistribution"
+	"github.com/pbenner/autodiff/statistics/matrixEstimator"
 	"github.com/pbenner/autodiff/statistics/scalarDistribution"
 	"github.com/pbenner/autodiff/statistics/scalarEstimator"
 	"github.com/pbenner/autodiff/statistics/vectorDistribution"
@@ -1003,6 +1005,180 @@ func TestC16_numeric_stationary(t *testing.T) {
 }
 
 // ---------------------------------------------------------------------------------------------
+// (i) EM over vector observations: vector mixtures and HMMs on matrix data (rows = positions) with
+// product emissions; snapshot likelihoods through the library's LogPdf (validated by C15)
+
+func drawVectorEstimator(t *rapid.T, dim int, fams []string) (statistics.VectorEstimator, string) {
+	parts := make([]statistics.ScalarEstimator, dim)
+	cfg := ""
+	for j := range parts {
+		var s string
+		parts[j], s, _ = famByName(fams[j]).newEstimator(t)
+		cfg += fmt.Sprintf("(%s %s)", fams[j], s)
+	}
+	e, err := vectorEstimator.NewScalarId(parts...)
+	if err != nil {
+		t.Fatalf("NewScalarId: %v", err)
+	}
+	return e, cfg
+}
+
+func TestC16_em_monotone_vector_models(t *testing.T) {
+	rapid.Check(t, func(t *rapid.T) {
+		kind := rapid.SampledFrom([]string{"vector mixture", "matrix hmm"}).Draw(t, "kind")
+		dim := rapid.IntRange(1, 2).Draw(t, "dim")
+		fams := make([]string, dim)
+		for j := range fams {
+			fams[j] = rapid.SampledFrom([]string{"normal", "poisson", "geometric"}).Draw(t, "family")
+		}
+		k := rapid.IntRange(2, 3).Draw(t, "components")
+		ests := make([]statistics.VectorEstimator, k)
+		cfg := ""
+		for i := range ests {
+			var s string
+			ests[i], s = drawVectorEstimator(t, dim, fams)
+			cfg += " [" + s + "]"
+		}
+		drawRow := func() []float64 {
+			r := make([]float64, dim)
+			for j := range r {
+				r[j] = famByName(fams[j]).drawX(t, "x")
+				if fams[j] != "normal" && r[j] > 30 {
+					r[j] = 30
+				}
+			}
+			return r
+		}
+		eps := rapid.SampledFrom([]float64{0, 1e-12, 1e-6}).Draw(t, "epsilon")
+		maxSteps := rapid.IntRange(1, 15).Draw(t, "maxSteps")
+		pool := threadpool.Nil()
+		var trace []float64
+		var lik []func() float64 // likelihood of the k-th snapshot
+		var err error
+		var runErr error
+		var desc string
+		if kind == "vector mixture" {
+			n := rapid.IntRange(2, 30).Draw(t, "n")
+			var xs []ConstVector
+			var raw [][]float64
+			for i := 0; i < n; i++ {
+				r := drawRow()
+				raw = append(raw, r)
+				xs = append(xs, NewDenseFloat64Vector(r))
+			}
+			desc = fmt.Sprintf("x=%v", raw)
+			hook := generic.EmHook{Value: func(m generic.BasicMixture, i int, likelihood, e float64) {
+				if i > 0 {
+					trace = append(trace, likelihood)
+				}
+				snap := m.(*vectorDistribution.Mixture).Clone()
+				lik = append(lik, func() float64 {
+					tot := 0.0
+					for _, x := range xs {
+						r := NullFloat64()
+						if e := snap.LogPdf(r, x); e != nil {
+							return math.NaN()
+						}
+						tot += r.GetFloat64()
+					}
+					return tot
+				})
+			}}
+			var est *vectorEstimator.MixtureEstimator
+			est, err = vectorEstimator.NewMixtureEstimator(nil, ests, eps, maxSteps, hook)
+			if err == nil {
+				p, to := guarded(func() { runErr = est.EstimateOnData(xs, nil, pool) })
+				if to || p != "" {
+					if p != "" {
+						t.Fatalf("%s %s: EstimateOnData %s", kind, desc, p)
+					}
+					return
+				}
+			}
+		} else {
+			nseq := rapid.IntRange(1, 3).Draw(t, "sequences")
+			var xs []ConstMatrix
+			var raw [][][]float64
+			for s := 0; s < nseq; s++ {
+				n := rapid.IntRange(2, 10).Draw(t, "n")
+				var rows [][]float64
+				flat := []float64{}
+				for i := 0; i < n; i++ {
+					r := drawRow()
+					rows = append(rows, r)
+					flat = append(flat, r...)
+				}
+				raw = append(raw, rows)
+				xs = append(xs, NewDenseFloat64Matrix(flat, n, dim))
+			}
+			desc = fmt.Sprintf("x=%v", raw)
+			pi := make([]float64, k)
+			tr := make([]float64, k*k)
+			for i := range pi {
+				pi[i] = rapid.Float64Range(0.1, 1).Draw(t, "pi")
+			}
+			for i := range tr {
+				tr[i] = rapid.Float64Range(0.05, 1).Draw(t, "tr")
+			}
+			hook := generic.BaumWelchHook{Value: func(h generic.BasicHmm, i int, likelihood, e float64) {
+				if i > 0 {
+					trace = append(trace, likelihood)
+				}
+				snap := h.(*matrixDistribution.Hmm).Clone()
+				lik = append(lik, func() float64 {
+					tot := 0.0
+					for _, x := range xs {
+						r := NullFloat64()
+						if e := snap.LogPdf(r, x); e != nil {
+							return math.NaN()
+						}
+						tot += r.GetFloat64()
+					}
+					return tot
+				})
+			}}
+			var est *matrixEstimator.HmmEstimator
+			est, err = matrixEstimator.NewHmmEstimator(NewDenseFloat64Vector(pi), NewDenseFloat64Matrix(tr, k, k), nil, nil, nil, ests, eps, maxSteps, hook)
+			if err == nil {
+				p, to := guarded(func() { runErr = est.EstimateOnData(xs, nil, pool) })
+				if to || p != "" {
+					if p != "" {
+						t.Fatalf("%s %s: EstimateOnData %s", kind, desc, p)
+					}
+					return
+				}
+			}
+		}
+		c := obs.Begin("em_monotone_vector_models", "%s%s eps=%v maxSteps=%d %s", kind, cfg, eps, maxSteps, desc)
+		c.Classf("kind=%s", kind)
+		c.Classf("dim=%d", dim)
+		if err != nil {
+			t.Fatalf("%s: constructor %v", c.Desc(), err)
+		}
+		c.NT(len(trace) >= 3)
+		c.Classf("iterations=%d", min(len(trace), 5))
+		if runErr != nil {
+			c.Class("EM stopped with an error")
+		}
+		for i, l := range trace {
+			if math.IsNaN(l) {
+				t.Fatalf("%s: iteration %d reports a NaN likelihood (trace %v)", c.Desc(), i+1, trace)
+			}
+			if i > 0 && l < trace[i-1]-tolL(l) {
+				t.Fatalf("%s: the likelihood decreased from %v to %v at iteration %d (trace %v)", c.Desc(), trace[i-1], l, i+1, trace)
+			}
+			// snapshot i is the model produced by iteration i (0: before the data was attached)
+			if i >= 1 && i < len(lik) {
+				if want := lik[i](); !math.IsNaN(want) && math.Abs(want-l) > tolL(want) {
+					t.Fatalf("%s: iteration %d reports the likelihood %v, the model that iteration started from has %v (trace %v)", c.Desc(), i+1, l, want, trace)
+				}
+			}
+		}
+		c.End()
+	})
+}
+
+// ---------------------------------------------------------------------------------------------
 // witnesses
 
 func TestKF_numeric_bfgs_start_point(t *testing.T) {
@@ -1041,4 +1217,276 @@ func TestKF_geometric_logpdf_p1(t *testing.T) {
 	r := NullFloat64()
 	d.LogPdf(r, ConstFloat64(0))
 	obs.KFStatus("C16/geometric-logpdf-of-zero-is-nan-for-p-1", math.IsNaN(r.GetFloat64()), fmt.Sprintf("LogPdf(0) = %v", r.GetFloat64()))
+}
+
+// ---------------------------------------------------------------------------------------------
+// (g) multivariate normal estimator: weighted mean and weighted covariance (the maximiser)
+
+func TestC16_vector_normal_is_mle(t *testing.T) {
+	rapid.Check(t, func(t *rapid.T) {
+		dim := rapid.IntRange(1, 3).Draw(t, "dim")
+		n := rapid.IntRange(dim+2, 25).Draw(t, "n")
+		offset := rapid.SampledFrom([]float64{0, 0, 10, -1000, 1e6}).Draw(t, "offset")
+		x := make([][]float64, n)
+		xs := make([]ConstVector, n)
+		for i := range x {
+			x[i] = make([]float64, dim)
+			for j := range x[i] {
+				x[i][j] = offset + rapid.Float64Range(-3, 3).Draw(t, fmt.Sprintf("x[%d][%d]", i, j))
+				if rapid.IntRange(0, 5).Draw(t, "int") == 0 {
+					x[i][j] = math.Round(x[i][j])
+				}
+			}
+			xs[i] = NewDenseFloat64Vector(x[i])
+		}
+		var gamma []float64
+		w := make([]float64, n)
+		for i := range w {
+			w[i] = 1
+		}
+		if rapid.Bool().Draw(t, "weighted") {
+			gamma = make([]float64, n)
+			for i := range gamma {
+				gamma[i] = rapid.Float64Range(-6, 0).Draw(t, fmt.Sprintf("gamma[%d]", i))
+				w[i] = math.Exp(gamma[i])
+			}
+		}
+		sigmaMin := rapid.SampledFrom([]float64{1e-12, 1e-8}).Draw(t, "sigmaMin")
+		c := obs.Begin("vector_normal_is_mle", "vector normal dim=%d sigmaMin=%g x=%v gamma=%v", dim, sigmaMin, x, gamma)
+		c.Classf("dim=%d", dim)
+		if gamma != nil {
+			c.Class("weighted")
+		}
+		c.NT(dim >= 2)
+		mu0 := make([]float64, dim)
+		s0 := make([]float64, dim*dim)
+		for i := 0; i < dim; i++ {
+			s0[i*dim+i] = 1
+		}
+		est, err := vectorEstimator.NewNormalEstimator(mu0, s0, sigmaMin)
+		if err != nil {
+			t.Fatalf("%s: constructor %v", c.Desc(), err)
+		}
+		pool, stop := drawPool(t, c)
+		defer stop()
+		var gv ConstVector
+		if gamma != nil {
+			gv = NewDenseFloat64Vector(gamma)
+		}
+		p, to := guarded(func() { err = est.EstimateOnData(xs, gv, pool) })
+		if to {
+			c.Class("inconclusive: watchdog")
+			c.End()
+			return
+		}
+		if p != "" {
+			t.Fatalf("%s: EstimateOnData %s", c.Desc(), p)
+		}
+		// reference: two-pass weighted moments
+		W := 0.0
+		mean := make([]float64, dim)
+		for i := range x {
+			W += w[i]
+		}
+		for j := 0; j < dim; j++ {
+			s := 0.0
+			for i := range x {
+				s += w[i] * (x[i][j] - x[0][j])
+			}
+			mean[j] = x[0][j] + s/W
+		}
+		cov := model.NewMat(dim, dim)
+		for a := 0; a < dim; a++ {
+			for b := 0; b < dim; b++ {
+				s := 0.0
+				for i := range x {
+					s += w[i] * (x[i][a] - mean[a]) * (x[i][b] - mean[b])
+				}
+				cov[a][b] = s / W
+			}
+		}
+		if d := cov.Det(); !(d > 1e-6*math.Pow(cov.MaxAbs(), float64(dim))) {
+			c.Class("(nearly) singular sample covariance: not asserted")
+			c.End()
+			return
+		}
+		if err != nil {
+			t.Fatalf("%s: EstimateOnData returned error %v although the sample covariance %v is regular", c.Desc(), err, cov)
+		}
+		dist, _ := est.GetEstimate()
+		nd := dist.(*vectorDistribution.NormalDistribution)
+		minSd := math.Inf(1)
+		for a := 0; a < dim; a++ {
+			minSd = math.Min(minSd, math.Sqrt(cov[a][a]))
+		}
+		acc := math.Max(1e-9, 10*(math.Abs(offset)+3)/minSd*1.2e-16)
+		for a := 0; a < dim; a++ {
+			if got := nd.Mu.At(a).GetFloat64(); math.Abs(got-mean[a]) > acc*math.Sqrt(cov[a][a])+1e-15*math.Abs(mean[a]) {
+				t.Fatalf("%s: mean[%d] = %v, the weighted mean is %v", c.Desc(), a, got, mean[a])
+			}
+			for b := 0; b < dim; b++ {
+				got := nd.Sigma.At(a, b).GetFloat64()
+				if a == b && cov[a][a] < sigmaMin*(1+1e-9) {
+					// the configured lower bound of the variances is active
+					c.Class("bound active")
+					if got < sigmaMin*(1-1e-12) || got > math.Max(sigmaMin, cov[a][a])*(1+1e-9) {
+						t.Fatalf("%s: variance[%d] = %v with the sample variance %v and the bound %v", c.Desc(), a, got, cov[a][a], sigmaMin)
+					}
+					continue
+				}
+				if math.Abs(got-cov[a][b]) > acc*math.Sqrt(cov[a][a]*cov[b][b]) {
+					t.Fatalf("%s: covariance[%d][%d] = %v, the weighted sample covariance (the maximiser) is %v", c.Desc(), a, b, got, cov[a][b])
+				}
+			}
+		}
+		c.End()
+	})
+}
+
+// ---------------------------------------------------------------------------------------------
+// (h) product estimators: ScalarId (one estimator per coordinate) and ScalarIid (one estimator for
+// all coordinates) give what the scalar estimators give on the columns / on the pooled entries
+
+func TestC16_product_estimators(t *testing.T) {
+	rapid.Check(t, func(t *rapid.T) {
+		kind := rapid.SampledFrom([]string{"ScalarId", "ScalarIid"}).Draw(t, "kind")
+		f := families[rapid.IntRange(0, len(families)-1).Draw(t, "family")]
+		dim := rapid.IntRange(1, 3).Draw(t, "dim")
+		n := rapid.IntRange(1, 12).Draw(t, "n")
+		x := make([][]float64, n)
+		xs := make([]ConstVector, n)
+		for i := range x {
+			x[i] = make([]float64, dim)
+			for j := range x[i] {
+				x[i][j] = f.drawX(t, fmt.Sprintf("x[%d][%d]", i, j))
+			}
+			xs[i] = NewDenseFloat64Vector(x[i])
+		}
+		var gamma []float64
+		if rapid.Bool().Draw(t, "weighted") {
+			gamma = make([]float64, n)
+			for i := range gamma {
+				gamma[i] = rapid.Float64Range(-5, 0).Draw(t, fmt.Sprintf("gamma[%d]", i))
+			}
+		}
+		base, cfg, _ := f.newEstimator(t)
+		c := obs.Begin("product_estimators", "%s of %s %s dim=%d x=%v gamma=%v", kind, f.name, cfg, dim, x, gamma)
+		c.Classf("kind=%s", kind)
+		c.Classf("family=%s", f.name)
+		if gamma != nil {
+			c.Class("weighted")
+		}
+		c.NT(n >= 2 && dim >= 2)
+		var gv ConstVector
+		if gamma != nil {
+			gv = NewDenseFloat64Vector(gamma)
+		}
+		pool := threadpool.Nil()
+		// reference: the scalar estimator itself on the data the product estimator stands for
+		ref := func(data, g []float64) ([]float64, error) {
+			e := base.CloneScalarEstimator()
+			var gg ConstVector
+			if g != nil {
+				gg = NewDenseFloat64Vector(g)
+			}
+			if err := e.EstimateOnData(NewDenseFloat64Vector(data), gg, pool); err != nil {
+				return nil, err
+			}
+			d, err := e.GetEstimate()
+			if err != nil {
+				return nil, err
+			}
+			return params(d), nil
+		}
+		var want []float64
+		var refErr error
+		var est statistics.VectorEstimator
+		var err error
+		switch kind {
+		case "ScalarId":
+			parts := make([]statistics.ScalarEstimator, dim)
+			for j := range parts {
+				parts[j] = base
+				col := make([]float64, n)
+				for i := range col {
+					col[i] = x[i][j]
+				}
+				p, e := ref(col, gamma)
+				if e != nil {
+					refErr = e
+				}
+				want = append(want, p...)
+			}
+			est, err = vectorEstimator.NewScalarId(parts...)
+		default:
+			var pooled, g []float64
+			for i := range x {
+				for j := range x[i] {
+					pooled = append(pooled, x[i][j])
+					if gamma != nil {
+						g = append(g, gamma[i]) // the weight of an observation vector applies to each entry
+					}
+				}
+			}
+			want, refErr = ref(pooled, g)
+			est, err = vectorEstimator.NewScalarIid(base, -1)
+		}
+		if err != nil {
+			t.Fatalf("%s: constructor %v", c.Desc(), err)
+		}
+		if refErr != nil {
+			c.Class("degenerate data for the scalar estimator")
+			c.End()
+			return
+		}
+		p, to := guarded(func() { err = est.EstimateOnData(xs, gv, pool) })
+		if to {
+			c.Class("inconclusive: watchdog")
+			c.End()
+			return
+		}
+		if p != "" {
+			if kind == "ScalarIid" && gamma != nil && dim > 1 && c.Known("C16/scalariid-passes-per-vector-weights-to-the-pooled-entries") {
+				c.End()
+				return
+			}
+			t.Fatalf("%s: EstimateOnData %s", c.Desc(), p)
+		}
+		if err != nil {
+			t.Fatalf("%s: EstimateOnData error %v (the scalar estimator gives %v)", c.Desc(), err, want)
+		}
+		got := est.GetParameters()
+		if got.Dim() != len(want) {
+			t.Fatalf("%s: %d parameters, want %d", c.Desc(), got.Dim(), len(want))
+		}
+		for k := range want {
+			if g := got.At(k).GetFloat64(); math.Abs(g-want[k]) > 1e-12*(1+math.Abs(want[k])) {
+				if kind == "ScalarIid" && gamma != nil && dim > 1 && c.Known("C16/scalariid-passes-per-vector-weights-to-the-pooled-entries") {
+					c.End()
+					return
+				}
+				t.Fatalf("%s: parameters %v, the scalar estimator on the same data gives %v", c.Desc(), got, want)
+			}
+		}
+		c.End()
+	})
+}
+
+func TestKF_vector_normal_covariance_cancellation(t *testing.T) {
+	est, _ := vectorEstimator.NewNormalEstimator([]float64{0}, []float64{1}, 1e-12)
+	xs := []ConstVector{NewDenseFloat64Vector([]float64{11.001953125}), NewDenseFloat64Vector([]float64{11}), NewDenseFloat64Vector([]float64{11})}
+	err := est.EstimateOnData(xs, nil, threadpool.Nil())
+	d, _ := est.GetEstimate()
+	got := d.(*vectorDistribution.NormalDistribution).Sigma.At(0, 0).GetFloat64()
+	want := 8.477105034722222e-07
+	obs.KFStatus("C16/vector-normal-estimator-covariance-cancellation", err == nil && math.Abs(got-want) > 1e-9*want, fmt.Sprintf("variance %v, sample variance %v, err %v", got, want, err))
+}
+
+func TestKF_scalariid_weights(t *testing.T) {
+	base, _ := scalarEstimator.NewExponentialEstimator(1, 1e9)
+	est, _ := vectorEstimator.NewScalarIid(base, -1)
+	xs := []ConstVector{NewDenseFloat64Vector([]float64{1, 2}), NewDenseFloat64Vector([]float64{3, 4})}
+	var err error
+	p, _ := guarded(func() { err = est.EstimateOnData(xs, NewDenseFloat64Vector([]float64{-1, 0}), threadpool.Nil()) })
+	obs.KFStatus("C16/scalariid-passes-per-vector-weights-to-the-pooled-entries", p != "", fmt.Sprintf("%s err %v", p, err))
 }
